@@ -33,6 +33,8 @@ type HostileConn struct {
 
 type HostileCase struct {
 	MaxMsg int           `json:"maxMsg"`
+	PoolAll bool         `json:"poolAll,omitempty"` // the pooling threshold (a defs variable, 1 KiB) is lowered to 32 bytes: the backing buffer of
+	// every record, sentinels included, is recycled and re-used by the next line of the same size class - hostile ones too
 	Conns  []HostileConn `json:"conns"`
 }
 
@@ -95,6 +97,12 @@ func runHostile(c HostileCase) vh.Result {
 	defs.InputLogMaxMessageBytes = c.MaxMsg
 	defs.InputLogMaxRecordBytes = c.MaxMsg + 256
 	defs.ListenerLineBufferSize = defs.InputLogMaxRecordBytes * 4
+	oldPool := defs.InputLogMinRecordBytesToPool
+	defer func() { defs.InputLogMinRecordBytesToPool = oldPool }()
+	if c.PoolAll {
+		defs.InputLogMinRecordBytesToPool = 32
+		res.Classes = append(res.Classes, "all-records-pooled")
+	}
 	root, err := os.MkdirTemp("", "verif-c07b-")
 	if err != nil {
 		panic(err)
@@ -326,6 +334,7 @@ func firstBad(hc HostileConn) []byte {
 
 func genHostileCase(t *rapid.T) HostileCase {
 	c := HostileCase{MaxMsg: rapid.SampledFrom([]int{300, 2000, 2000}).Draw(t, "maxMsg")}
+	c.PoolAll = rapid.Bool().Draw(t, "poolAll")
 	n := rapid.IntRange(1, 3).Draw(t, "nconns")
 	for i := 0; i < n; i++ {
 		hc := HostileConn{Frag: rapid.SampledFrom([]int{0, 0, 1, 13, 500}).Draw(t, "frag"), Abrupt: rapid.IntRange(0, 3).Draw(t, "abrupt") == 0}
